@@ -152,7 +152,7 @@ func (v *violSet) report(run *core.Run) {
 func seqCases(quick bool) []seqCase {
 	var out []seqCase
 	full := make([]*letter, len(alphabet))
-	var corel, mini []*letter
+	var corel, mini, blk, unb []*letter
 	for i := range alphabet {
 		full[i] = &alphabet[i]
 		if alphabet[i].Core {
@@ -161,9 +161,15 @@ func seqCases(quick bool) []seqCase {
 		if alphabet[i].Mini {
 			mini = append(mini, &alphabet[i])
 		}
+		if alphabet[i].Blk {
+			blk = append(blk, &alphabet[i])
+		}
+		if alphabet[i].Unb {
+			unb = append(unb, &alphabet[i])
+		}
 	}
-	if len(mini) != len(miniLetters) {
-		core.Fatal("mini alphabet has %d of %d letters", len(mini), len(miniLetters))
+	if len(mini) != len(miniLetters) || len(blk) != len(blkLetters) || len(unb) != len(unbLetters) {
+		core.Fatal("mini/block/unbound alphabets have %d/%d/%d of %d/%d/%d letters", len(mini), len(blk), len(unb), len(miniLetters), len(blkLetters), len(unbLetters))
 	}
 	emit := func(base string, letters []*letter, length int, comps [][]int, replicas []string) {
 		idx := make([]int, length)
@@ -204,6 +210,8 @@ func seqCases(quick bool) []seqCase {
 		emit("A1,B1,C1,D0", corel, 2, [][]int{{2}}, r3)
 		emit("A1", mini, 2, compositions(2), r3)
 		emit("A1,B1,C1,D0", mini, 3, [][]int{{1, 1, 1}}, r3)
+		emit("A1,B1,C1,D0", blk, 3, [][]int{{3}, {2, 1}, {1, 2}}, r3)
+		emit("A1,B1,C1,D0", unb, 3, [][]int{{1, 1, 1}}, r3)
 		return out
 	}
 	for _, base := range []string{"A1,B1,C1,D0", "A1"} {
@@ -213,6 +221,8 @@ func seqCases(quick bool) []seqCase {
 	emit("A1,B1,C1,D0", corel, 3, [][]int{{1, 1, 1}}, r4)
 	emit("A1,B1,C1,D0", corel, 3, [][]int{{3}, {1, 2}, {2, 1}}, r3)
 	emit("A1", mini, 3, ends, r3)
+	emit("A1,B1,C1,D0", blk, 3, compositions(3), r4)
+	emit("A1,B1,C1,D0", unb, 3, compositions(3), r4)
 	return out
 }
 
@@ -450,7 +460,7 @@ func main() {
 	viols.report(run)
 
 	names := make([]string, len(alphabet))
-	nCore, nMini := 0, 0
+	nCore, nMini, nBlk, nUnb := 0, 0, 0, 0
 	for i, l := range alphabet {
 		names[i] = l.Name
 		if l.Core {
@@ -459,10 +469,16 @@ func main() {
 		if l.Mini {
 			nMini++
 		}
+		if l.Blk {
+			nBlk++
+		}
+		if l.Unb {
+			nUnb++
+		}
 	}
-	tierRule := "thorough: EVERY sequence of length ≤2 over the full alphabet on both base sets in every split into blocks; EVERY sequence of length 3 over the core alphabet on {A1,B1,C1,D0} in every split into blocks (1|1|1, 1|2, 2|1, 3) and over the mini alphabet on {A1} split 1|1|1 and as one block"
+	tierRule := "thorough: EVERY sequence of length ≤2 over the full alphabet on both base sets in every split into blocks; EVERY sequence of length 3 over the core alphabet on {A1,B1,C1,D0} in every split into blocks (1|1|1, 1|2, 2|1, 3) and over the mini alphabet on {A1} split 1|1|1 and as one block; EVERY sequence of length 3 over the block alphabet and over the unbound alphabet on {A1,B1,C1,D0} in every split into blocks"
 	if run.Quick() {
-		tierRule = "quick: EVERY sequence of length 1 over the full alphabet on both base sets; of length 2 on {A1,B1,C1,D0} over the full alphabet in two blocks and over the core alphabet in one block, and on {A1} over the mini alphabet in both splits; of length 3 over the mini alphabet on {A1,B1,C1,D0} in three blocks"
+		tierRule = "quick: EVERY sequence of length 1 over the full alphabet on both base sets; of length 2 on {A1,B1,C1,D0} over the full alphabet in two blocks and over the core alphabet in one block, and on {A1} over the mini alphabet in both splits; of length 3 over the mini alphabet on {A1,B1,C1,D0} in three blocks, over the block alphabet in the splits 3, 2|1, 1|2 and over the unbound alphabet in three blocks"
 	}
 	distinct := tallyClasses.Len() + len(w.Classes)
 	run.Finish(core.Coverage{
@@ -472,7 +488,7 @@ func main() {
 		"evaluations":                   tallyCases + w.Cases + w.QueryCases,
 		"distinct_nontrivial":           distinct,
 		"rule": "part 1 (tally): for each validator power vector, EVERY ordered list of length 0.." + strconv.Itoa(maxLen) + " over the entry kinds (thorough: all; quick: all but X01) {Vi = valid signature of validator i over the request (one kind per validator, incl. the zero-power one), W0 = V0's key with V0's signature over a different message, N = genuine signature of a non-validator key, X01 = V0's key with V1's signature, PS/PL = V0's key one byte short/long, SS/SL = V0's signature halved/one byte long, E = empty entry}; duplicates are repeated letters; each list is put into an add_peer request and offered to the real AdminOp.ExecTX. " +
-			"part 2 (sequence): requests = {add, update, remove, unknown command, unknown type} × targets {new key K, validator B, signer A, zero-power D} × nonce {n−1,n,n+1} × {bound sender, other sender, second administrator Y} × signature lists {all validators, exactly 2/3, one validator ×3, foreign keys, other message} × channel {governance contract, precompile 0xfe called directly with forged sender bytes} + literal replays of earlier requests (" + strconv.Itoa(len(alphabet)) + " letters; core " + strconv.Itoa(nCore) + ", mini " + strconv.Itoa(nMini) + "); " + tierRule + "; every case runs on 2 lock-step replicas (consensus pattern Copy→ApplyBlock) plus late replicas (in-place ApplyBlock; thorough also Save/LoadState + fresh plugins between blocks). " +
+			"part 2 (sequence): requests = {add, update, remove, unknown command, unknown type} × targets {new key K, validator B, signer A, zero-power D} × nonce {n−1,n,n+1} × {bound sender, other sender, second administrator Y} × signature lists {all validators, exactly 2/3, one validator ×3, foreign keys, other message} × channel {governance contract, precompile 0xfe called directly with forged sender bytes} + a request signed by all validators whose attributes name NO account (empty addr) + literal replays of earlier requests by the first submitter, the second administrator Y and a third fresh account Z (" + strconv.Itoa(len(alphabet)) + " letters; core " + strconv.Itoa(nCore) + ", mini " + strconv.Itoa(nMini) + "; block alphabet " + strconv.Itoa(nBlk) + " = one change, the same change asked again by the same and by a second administrator, another change of that key, add/update/remove of other keys, all properly authorised, so that one block holds up to three accepted requests of which one asks for the state its key has by then; unbound alphabet " + strconv.Itoa(nUnb) + " = the empty-addr request, bound changes by X and Y, replays by X, Y, Z through both channels); " + tierRule + "; every case runs on 2 lock-step replicas (consensus pattern Copy→ApplyBlock) plus late replicas (in-place ApplyBlock; thorough also Save/LoadState + fresh plugins between blocks); judged per request (accepted iff authorised; a request naming no account may be accepted or not, but the literal bytes of a request that was accepted are never accepted again), per block (next set = reference; a difference on a key named by at most one accepted request is never attributed to the known same-block defect; the set recorded as in force at the height = the set before the block) and across replicas (membership, powers, hash, recorded set in force). " +
 			"part 3 (query): the same requests sent as read-only contract queries (current state / state of an earlier height) to one of two replicas running the real EVMApp. " +
 			"distinct_nontrivial = distinct (set, verdict, entitled power, list shape) classes of part 1 + distinct (command, channel, model verdict, implementation verdict, recorded) and block-outcome classes of parts 2/3; states = distinct (validator set, account nonces) model states reached + tally classes",
 		"exhaustive":         true,
